@@ -134,7 +134,7 @@ C["C09"] = dict(assumptions=["torrent fixture: real newTorrent/startPeer/handler
     H("ZZPickerSequential4", "torrent", "4 events, sequential", None, T(40, 7000, 32, 8, flags=["-nospawn"]), replay="model"),
 ])
 
-C["C14"] = dict(assumptions=["metainfo parser replaced by 'parses to a fixed 2-piece torrent or is rejected'", "resume database replaced by its contract: one update = one atomic transaction that succeeds or fails as a whole (Write may fail; bucket deletion succeeds)", "uuid.NewV1 replaced by distinct values", "torrent event loops not started (ghost workers honour Close)", "restart equivalence, field-wise resume round trips and concurrent callers are outside the claim"], harnesses=[
+C["C14"] = dict(assumptions=["metainfo parser replaced by 'parses to a fixed 2-piece torrent or is rejected'", "resume database replaced by its contract: one update = one atomic transaction that succeeds or fails as a whole (Write may fail; bucket deletion succeeds)", "uuid.NewV1 replaced by distinct values", "torrent event loops not started (ghost workers honour Close)", "restart equivalence (session start-up loading), database compaction and concurrent callers are outside the claim"], harnesses=[
     H("ZZRegistrySeq", "torrent", "every sequence of 3 AddTorrent/RemoveTorrent operations on a real Session value with a 2-port range (explicit or generated ids; metainfo rejection, storage failure, resume-write failure injected arbitrarily): ids unique, no two live torrents share a port, every port free or owned exactly once, failed add releases exactly its port and registers nothing, session torrents == resume records", T(40, 1800, 4, 5, flags=["-nospawn"]), T(40, 1800, 4, 5, flags=["-nospawn"]), replay="model"),
 ])
 
@@ -217,6 +217,11 @@ C["C11"]["harnesses"] += [
     H("ZZReaderSlowPiece", "internal/peerconn/peerreader", "a piece message whose 6-byte block arrives slowly - the read deadline expires at up to two arbitrary points inside the block (in-memory connection returning a timeout error at those stream positions) - followed by a have message: the block delivered equals the block sent, the following message is decoded (framing kept); a deadline expiring before any byte of the block drops the peer", T(60, 600), T(60, 600)),
 ]
 C["C08"]["harnesses"] += [h for h in C["C11"]["harnesses"] if h["fn"] == "ZZReaderSlowPiece"]
+
+C["C14"]["harnesses"] += [
+    H("ZZResumeRoundTrip", "internal/resumer/boltdbresumer", "a torrent record written with Write and read back with Read, then single-field updates (WriteStarted, WriteBitfield) read back: every field equal to what was written - arbitrary info-hash / info / bitfield bytes, all flag combinations, versions 0..3, port at the range boundaries, each transfer counter at every power-of-two boundary 2^k and 2^k-1 (k < 63), seeding time at 4 durations, concrete name / trackers / web seeds / added-at", T(80, 900), T(80, 900), replay="model"),
+]
+C["C14"]["assumptions"] += ["resume round trip: bbolt replaced by its key/value contract (nested buckets as maps, Put stores a copy), encoding/json replaced by an opaque faithful encoding (tracker / url / peer lists not examined byte-wise)"]
 
 for pid, spec in C.items():
     spec = dict(property=pid, **spec)
